@@ -151,13 +151,14 @@ def cubic_bspline2d(
     """
     if dtype is None:
         dtype = torch.float
-    stride_ = cat_scalars(stride, *args, num=2, dtype=torch.int32, device=torch.device("cpu"))
-    kernel = torch.ones((4 * stride_ - 1).tolist(), dtype=dtype)
-    radius = [n // 2 for n in kernel.shape]
-    for j in range(kernel.shape[1]):
-        w_j = cubic_bspline_value((j - radius[1]) / stride[1], derivative=derivative)
-        for i in range(kernel.shape[0]):
-            w_i = cubic_bspline_value((i - radius[0]) / stride[0], derivative=derivative)
+    stride_ = cat_scalars(stride, *args, num=2, dtype=torch.int32, device=torch.device("cpu")).tolist()
+    size = [4 * s - 1 for s in stride_]  # (nx, ny)
+    kernel = torch.ones((size[1], size[0]), dtype=dtype)
+    radius = [n // 2 for n in size]
+    for j in range(size[1]):
+        w_j = cubic_bspline_value((j - radius[1]) / stride_[1], derivative=derivative)
+        for i in range(size[0]):
+            w_i = cubic_bspline_value((i - radius[0]) / stride_[0], derivative=derivative)
             kernel[j, i] = w_i * w_j
     if device is None:
         device = kernel.device
